@@ -488,6 +488,8 @@ def run(ctx: core.Run):
         ctx.recheck(["PsdVerif.Props.C01"])
     # ---- descriptors (psd/descriptor.py): modelled and proved in Props/C01Descriptor.lean; everything is in desc_common.py
     __import__("desc_common").run(ctx)
+    # ---- type-directed variants of every payload class over the whole on-disk domain of each field (harness/payload_gen.py)
+    __import__("payload_gen").run_c01(ctx)
 
 
 def systematic_payloads(ctx, classes, sink, per_class):
